@@ -29,10 +29,12 @@
       sides are still at work and the sender can afford one more time-out, the transfer
       completes ([C04_quiet_after_faults_completes]) - one time-out is all a recovery costs.
       The invariant behind both is [C04_general_invariant].
-    What is NOT proved: the same for duplicate-packets mode with faults (proved without faults:
-    C16), and for files beyond 65535 blocks under arbitrary schedules (proved for no fault, single
-    faults and spaced losses: C15; the safety theorem has the same bound because a datagram held
-    back long enough can then be mistaken for a later block).  The finite enumeration
+      The same two theorems for duplicate-packets mode (any repeat counts on either side) are
+      pinned in Props/C16.v ([C16_every_schedule_ends_in_dup_mode],
+      [C16_quiet_after_faults_completes_in_dup_mode]).
+    What is NOT proved: arbitrary schedules for files beyond 65535 blocks (proved there for no
+    fault, single faults and spaced losses: C15; the safety theorem has the same bound because a
+    datagram held back long enough can then be mistaken for a later block).  The finite enumeration
     [C04_single_fault_small] (independent of the inductions) stands beside the theorems, and the
     W-PAIR co-simulation suite runs seeded multi-fault schedules against the real workers. *)
 From Coq Require Import Lia.
